@@ -417,9 +417,91 @@ pub fn check(ctx: &mut Ctx) {
 		.into();
 	ctx.assumptions = vec!["message size = WebSocket payload length / HTTP body length in bytes".into(), "the default `Server` (accept loop, real sockets, HTTP chunked transfer encoding on the wire) is covered by the real-clock sub-check request-sizes-over-tcp; a missed wall budget there is inconclusive".into()];
 	ctx.run_sub(&Sizes);
+	ctx.run_sub(&UnderBackpressure);
 	ctx.run_sub(&SizesTcp);
 }
 
 pub fn replay(file: &serde_json::Value) -> Option<i32> {
-	replay_with(&Sizes, file, "C07").or_else(|| replay_with(&SizesTcp, file, "C07"))
+	replay_with(&Sizes, file, "C07").or_else(|| replay_with(&UnderBackpressure, file, "C07")).or_else(|| replay_with(&SizesTcp, file, "C07"))
+}
+
+// ---------------------------------------------------------------------------------------------
+// an oversized WebSocket message arriving while the connection's outgoing buffer is full
+// ---------------------------------------------------------------------------------------------
+
+#[derive(Clone, Debug, Serialize, Deserialize)]
+pub struct PressureCase {
+	pub limit: u16,
+	pub over_by: u16,
+	pub buffer_capacity: u8,
+	pub queued: u8,
+	pub pipe: u16,
+	pub binary: bool,
+	pub lowlevel: bool,
+}
+
+pub struct UnderBackpressure;
+
+impl SubCheck for UnderBackpressure {
+	type Case = PressureCase;
+	fn name(&self) -> &'static str {
+		"oversized-under-backpressure"
+	}
+	fn cases(&self, tier: Tier) -> u32 {
+		tier.pick(3_000, 60_000)
+	}
+	fn strategy(&self, _tier: Tier) -> BoxedStrategy<PressureCase> {
+		(100u16..400, prop_oneof![Just(1u16), Just(2u16), 3u16..200], prop_oneof![Just(1u8), Just(2u8), Just(8u8)], 2u8..7, 128u16..1024, any::<bool>(), proptest::bool::weighted(0.3))
+			.prop_map(|(limit, over_by, buffer_capacity, queued, pipe, binary, lowlevel)| PressureCase { limit, over_by, buffer_capacity, queued, pipe, binary, lowlevel })
+			.boxed()
+	}
+	fn run(&self, case: &PressureCase, obs: &mut Obs) {
+		let rt = rt();
+		rt.block_on(async {
+			let fix = Fixture::new(Cfg { max_request: case.limit as u32, buffer_capacity: case.buffer_capacity.max(1) as u32, ..Cfg::default() });
+			let ws = if case.lowlevel { fix.ws_lowlevel().await } else { fix.ws_with(case.pipe as usize).await };
+			let Ok(mut ws) = ws else {
+				obs.fail("c07/ws-handshake", "failed".to_string());
+				return;
+			};
+			let desc = || format!("case={case:?}");
+			// the peer stops reading (its reader takes one last message first)
+			ws.read_gate.pause();
+			let _ = ws.send_text(r#"{"jsonrpc":"2.0","id":"last-read","method":"echo_sync","params":[0]}"#).await;
+			settle().await;
+			let _ = ws.drain();
+			// answers that do not fit into the pipe pile up in the connection's outgoing buffer
+			for k in 0..case.queued {
+				let _ = ws.send_text(&format!(r#"{{"jsonrpc":"2.0","id":"q{k}","method":"big_async","params":[3000,0,0]}}"#)).await;
+			}
+			settle().await;
+			// now the oversized message: a valid call padded beyond the limit
+			let size = case.limit as usize + case.over_by as usize;
+			let head = r#"{"jsonrpc":"2.0","id":"too-big","method":"echo_sync","params":[""#;
+			let tail = r#""]}"#;
+			let pad = size.saturating_sub(head.len() + tail.len());
+			let msg = format!("{head}{}{tail}", "x".repeat(pad));
+			let log0 = fix.ctx.log_len();
+			let sent = if case.binary { ws.send_binary(msg.as_bytes()).await } else { ws.send_text(&msg).await };
+			if sent.is_err() {
+				obs.fail("c07/ws-send", desc());
+				return;
+			}
+			let _ = ws.send_text(r#"{"jsonrpc":"2.0","id":"after","method":"echo_sync","params":[1]}"#).await;
+			settle().await;
+			ws.read_gate.resume();
+			settle().await;
+			let frames: Vec<Value> = ws.drain_texts().iter().filter_map(|t| serde_json::from_str(t).ok()).collect();
+			let ran: Vec<Invocation> = fix.ctx.log_since(log0).into_iter().filter(|l| l.params.as_deref().is_some_and(|p| p.contains("xxxx"))).collect();
+			obs.check(ran.is_empty(), "c07/ws-oversized-request-processed", || format!("{ran:?}; {}", desc()));
+			let rejected = frames.iter().filter(|f| f["error"]["code"] == json!(-32007) && f["id"].is_null()).count();
+			obs.check(rejected == 1, "c07/ws-oversized-request-answer", || format!("{rejected} rejections (-32007) among {} frames while the outgoing buffer was full; {}", frames.len(), desc()));
+			obs.check(frames.iter().any(|f| f["id"] == json!("after") && f.get("result").is_some()), "c07/ws-connection-dead-after-message", || format!("the call sent after the oversized message was not answered; frames {}; {}", truncate(&format!("{frames:?}"), 400), desc()));
+			let answered = (0..case.queued).filter(|k| frames.iter().any(|f| f["id"] == json!(format!("q{k}")))).count();
+			obs.check(answered == case.queued as usize, "c07/ws-queued-calls-lost", || format!("{answered} of {} queued calls answered; {}", case.queued, desc()));
+			obs.nontrivial();
+			obs.class(if case.lowlevel { "low-level-ws-connect" } else { "tower-service" });
+			obs.class(format!("buffer:{}", case.buffer_capacity));
+		});
+	}
 }
